@@ -211,6 +211,16 @@ def rule_matrix_builders(ctx: Ctx):
                     norm(pos.args[0]) in (f"list({lab})", lab, f"[float({'x'}) for x in {lab}]")
                 ctx.check(okp, "R-C04-5", init, call, "positions are derived element-wise from the labels (same order)",
                           bad_detail="positions handed to the ordinal dissimilarity are not aligned with the labels", key="numerical-align")
+                # ... and stay so until they are handed over: nothing may update the positions array in place in between (a sort, a reversal, a
+                # helper that does one on its argument), the labels keep their order
+                if okp and len(pin) > 1 and pin[1] in ba and isinstance(ba[pin[1]], ast.Name):
+                    pv_ = ba[pin[1]].id
+                    fl_ = prog(ctx).flow(init)
+                    upd = [m for m in fl_.mutations if m.av.kind == "fresh" and m.node is not call and
+                           any(isinstance(x, ast.Name) and x.id == pv_ for x in ast.walk(m.node))]
+                    ctx.check(not upd, "R-C04-5", init, upd[0].node if upd else call, "the positions are handed over as they were derived (not updated in place in between)",
+                              bad_detail=f"`{norm(upd[0].node)[:70]}` updates the positions array `{pv_}` in place before it is handed to the ordinal dissimilarity, while the labels "
+                                         f"keep the order they were given in: label k gets another label's position" if upd else "", key="numerical-align-stable")
             continue
         n_builders += 1
         pinit = parent.methods["__init__"]
